@@ -205,6 +205,11 @@ class FnTranslator:
         if name in INPLACE_FUNCS and e.args:
             for nm in sorted(args[0][0]):
                 self.pre.append(("write", nm, e.lineno, f"{name}()"))
+        # np.nan_to_num(x, copy=False) cleans x itself
+        if name == "nan_to_num" and e.args and any(k.arg == "copy" and isinstance(k.value, ast.Constant) and k.value.value is False
+                                                   for k in e.keywords):
+            for nm in sorted(args[0][0]):
+                self.pre.append(("write", nm, e.lineno, "nan_to_num(copy=False)"))
         allal = set().union(recv[0], *[a for a, _ in args], *[a for a, _ in kws.values()])
         if name == "astype":
             copy_false = any(k.arg == "copy" and isinstance(k.value, ast.Constant) and k.value.value is False
